@@ -174,12 +174,12 @@ ParseTill(st, path, dst) ==     \* path = blocks still to connect, bottom up
              h == HeightOf(b)
              r == Connect(b, st.utxo, h)
          IN IF r.viol = {}
-            THEN ParseTill([st EXCEPT !.tip = b, !.utxo = r.u, !.undo = (h :> r.spent) @@ @], Tail(path), dst)
+            THEN ParseTill([st EXCEPT !.tip = b, !.utxo = r.u, !.undo = (h :> r.spent) @@ @, !.conn = Append(@, b)], Tail(path), dst)
             ELSE \* DeleteBranch(b), then move to the farthest remaining node
                  LET dead == Descendants(b, st.known)
                      kn == st.known \ dead
                      kd == [p \in DOMAIN st.kids |-> IF p \in dead THEN <<>> ELSE SelectSeq(st.kids[p], LAMBDA x : x \notin dead)]
-                     st2 == [st EXCEPT !.known = kn, !.kids = kd]
+                     st2 == [st EXCEPT !.known = kn, !.kids = kd, !.failed = Append(@, b)]
                      far == Farthest(0, kd)[1]
                  IN IF far = st2.tip THEN st2 ELSE MoveTo(st2, far)
 
@@ -191,7 +191,7 @@ MoveTo(st, dst) ==
         path == SubSeq(full, Len(ChainTo(fork)) + 1, Len(full))
     IN ParseTill(st2, path, dst)
 
-Cur == [known |-> known, kids |-> kids, tip |-> tip, utxo |-> utxo, undo |-> undo]
+Cur == [known |-> known, kids |-> kids, tip |-> tip, utxo |-> utxo, undo |-> undo, failed |-> <<>>, conn |-> <<>>]
 
 Deliver(b) ==
     /\ b \notin known
